@@ -3,9 +3,9 @@ package guards
 import (
 	"fmt"
 	"go/constant"
-	"os"
 	"go/token"
 	"go/types"
+	"os"
 	"sort"
 	"strings"
 
